@@ -97,6 +97,10 @@ def run(idx: Index, rep: Report, tier: str) -> None:
     rule2 = "C32.2 T2 selection"
     g = idx.func(FACT + "._get_engine_class")
     rep.note_function(g.qualname)
+    from ..roles import with_roles
+
+    # role: the candidate class, i.e. whatever local is bound to self._engines[<name>]
+    g = with_roles(g, {a.targets[0].id: "EngineClass" for a in walk_no_nested(g.node) if isinstance(a, ast.Assign) and isinstance(a.targets[0], ast.Name) and isinstance(a.value, ast.Subscript) and norm(a.value.value) == "self._engines"})
     cfg = cfg_of(g)
     sat = cfg_nodes_with_call(cfg, "_engine_satisfies_conditions")
     if not sat:
